@@ -213,8 +213,23 @@ def models_for_script():
     return {0: m0, 1: m1, None: mn}
 
 
+ARGS = ['data', 'pdf', 'init_pars', 'par_bounds', 'fixed_params']
+
+
+def plain(tb, x):
+    """argument values as plain python (lists of floats / bools), whatever container they travel in"""
+    if x is None or isinstance(x, (bool, int, float, str)):
+        return x
+    if isinstance(x, (list, tuple)):
+        return [plain(tb, v) for v in x]
+    try:
+        return plain(tb, tb.tolist(x))
+    except Exception:
+        return repr(x)[:80]
+
+
 class Scripted:
-    """pyhf.infer.test_statistics with both fits replaced by a script"""
+    """pyhf.infer.test_statistics with both fits replaced by a script; the replacements record what they are called with"""
 
     def __init__(self, backend):
         import pyhf
@@ -226,6 +241,7 @@ class Scripted:
         self.models = models_for_script()
         self.script = None
         self.fixed_calls = []
+        self.received = []
         self.saved = []
 
     def __enter__(self):
@@ -234,6 +250,7 @@ class Scripted:
         def fit(data, pdf, init_pars=None, par_bounds=None, fixed_params=None, return_fitted_val=False, **kw):
             sc = self.script
             self.free_calls += 1
+            self.received.append(dict(which='fit', data=data, pdf=pdf, init_pars=init_pars, par_bounds=par_bounds, fixed_params=fixed_params, extra=sorted(kw)))
             p = tb.astensor(sc['free_pars'])
             return (p, tb.astensor(sc['free_val'])) if return_fitted_val else p
 
@@ -241,6 +258,7 @@ class Scripted:
             sc = self.script
             mu = float(poi_val)
             self.fixed_calls.append(mu)
+            self.received.append(dict(which='fixed_poi_fit', data=data, pdf=pdf, init_pars=init_pars, par_bounds=par_bounds, fixed_params=fixed_params, extra=sorted(kw)))
             pars = list(sc['fixed_pars'])
             if sc['poi'] is not None:
                 pars[sc['poi']] = mu
@@ -267,16 +285,24 @@ class Scripted:
         tb = self.tb
         self.script = sc
         self.fixed_calls = []
+        self.received = []
         self.free_calls = 0
         self.handler.msgs = []
         model = self.models[sc['poi']]
         npar = len(sc['free_pars'])
         bounds = [(0.0, 10.0)] * npar
-        if sc['poi'] is not None:
-            bounds[sc['poi']] = (sc['lower'], 10.0)
         init = [1.0] * npar
         fixed = [False] * npar
         data = [55.0] + [float(x) for x in model.config.auxdata]
+        caller = sc.get('caller')
+        if caller:          # caller-chosen arguments, different for every script: both fits must be run with exactly these
+            init = [float(x) for x in caller['init_pars']]
+            bounds = [(float(lo), float(hi)) for lo, hi in caller['par_bounds']]
+            fixed = [bool(x) for x in caller['fixed_params']]
+            data = [float(caller['data0'])] + data[1:]
+        if sc['poi'] is not None:
+            bounds[sc['poi']] = (sc['lower'], bounds[sc['poi']][1])
+        passed = dict(data=data, pdf=model, init_pars=init, par_bounds=bounds, fixed_params=fixed)
         if sc.get('via_get_test_stat') and sc['stat'] in ('q', 'qtilde', 'q0'):
             func = self.pyhf.infer.utils.get_test_stat(sc['stat'])
         else:
@@ -291,6 +317,13 @@ class Scripted:
             self.handler.msgs = []
             r2 = func(sc['mu'], data, model, init, bounds, fixed)
             out['value_only'] = fl(tb, r2)
+            out['passed'] = {k: plain(tb, v) for k, v in passed.items() if k != 'pdf'}
+            out['fit_calls'] = []
+            for rc in self.received:
+                got = {k: plain(tb, rc[k]) for k in ARGS if k != 'pdf'}
+                got['pdf'] = 'the model passed' if rc['pdf'] is model else repr(type(rc['pdf']).__name__)
+                wrong = [k for k in ARGS if (rc['pdf'] is not model if k == 'pdf' else got[k] != out['passed'][k])]
+                out['fit_calls'].append(dict(which=rc['which'], received=got, differs=wrong, extra=rc['extra']))
         except Exception as e:
             out['exception'] = core.exc_enum(e)
             out['msg'] = str(e)[:160]
@@ -331,6 +364,10 @@ def gen_scripts(rng, n_random):
         keep.append(dict(stat=stat, poi=None, lower=0.0, mu=1.0, free_pars=[1.0, 1.0], free_val=10.0, fixed_pars=[1.0, 1.0], a=11.0, c=0.0, regime='no-poi'))
     for i, sc in enumerate(keep):
         sc['via_get_test_stat'] = bool(i % 2)
+        # caller-chosen fit arguments, different for every script (the POI lower bound stays the scripted one)
+        sc['caller'] = dict(init_pars=[D(rng.randrange(1, 40)), D(rng.randrange(1, 40))],
+                            par_bounds=[[-D(rng.randrange(1, 40)), 10.0 + D(rng.randrange(1, 400))] for _ in range(2)],
+                            fixed_params=[rng.random() < 0.3, rng.random() < 0.3], data0=50.0 + D(rng.randrange(0, 80)))
     return keep
 
 
@@ -367,7 +404,15 @@ def spec_value(sc):
 # ---------------------------------------------------------------------------------------
 # (ii) real fits on one-bin counting models
 def counting_model(s, b, lo, hi):
+    """lo is None: the POI is left unconfigured (pyhf's default range and starting value)"""
     import pyhf
+    if lo is None:
+        spec = {'channels': [{'name': 'c', 'samples': [
+            {'name': 'sig', 'data': [float(s)], 'modifiers': [{'name': 'mu', 'type': 'normfactor', 'data': None}]},
+            {'name': 'bkg', 'data': [float(b)], 'modifiers': []}]}],
+            'observations': [{'name': 'c', 'data': [0.0]}],
+            'measurements': [{'name': 'm', 'config': {'poi': 'mu', 'parameters': []}}], 'version': '1.0.0'}
+        return pyhf.Workspace(spec).model()
     spec = {'channels': [{'name': 'c', 'samples': [
         {'name': 'sig', 'data': [float(s)], 'modifiers': [{'name': 'mu', 'type': 'normfactor', 'data': None}]},
         {'name': 'bkg', 'data': [float(b)], 'modifiers': []}]}],
@@ -407,6 +452,15 @@ def gen_counting(rng, n_models, thorough):
             for st in STATS:
                 out.append(dict(stat=st, n=float(n), s=float(s), b=float(b), lo=lo, hi=hi, mu=float(mu),
                                 regime=('at-lo' if u <= lo else ('at-hi' if u >= hi else 'interior')) + ('/mu=muhat' if mu == m else '')))
+    # POI range and starting value supplied by the CALLER (the model keeps pyhf's default range [0, 10]) and a best fit outside the default range
+    wide = [(n, s, b, lo) for (n, s, b, lo) in combos if (n - b) / s > 12.0]
+    for (n, s, b, lo) in wide[:max(2, n_models // 3)]:
+        u = (n - b) / s
+        hi = float(rng.choice([2, 4]) * math.ceil(u))
+        for mu in dict.fromkeys([0.0, 1.0, float(math.ceil(u)) + rng.choice([2.0, 5.0, 10.0]), hi, u]):
+            for st in STATS:
+                out.append(dict(stat=st, n=float(n), s=float(s), b=float(b), lo=lo, hi=hi, mu=float(mu), caller_bounds=True, init=rng.choice([1.0, 5.0, float(math.ceil(u))]),
+                                regime='interior/caller-bounds/best-fit-outside-default-range' + ('/mu=muhat' if mu == u else '')))
     return out
 
 
@@ -418,13 +472,16 @@ def run_counting(cases, optimizer=None):
     outs = []
     logging.getLogger('pyhf.infer.test_statistics').setLevel(logging.ERROR)
     for c in cases:
-        key = (c['s'], c['b'], c['lo'], c['hi'])
+        key = (c['s'], c['b'], None, None) if c.get('caller_bounds') else (c['s'], c['b'], c['lo'], c['hi'])
         if key not in cache:
             cache[key] = counting_model(*key)
         model = cache[key]
         func = getattr(TS, FUNC[c['stat']])
+        init, bounds = model.config.suggested_init(), model.config.suggested_bounds()
+        if c.get('caller_bounds'):
+            init, bounds = [float(c.get('init', 1.0))], [(float(c['lo']), float(c['hi']))]
         try:
-            r, (p1, p2) = func(c['mu'], [c['n']], model, model.config.suggested_init(), model.config.suggested_bounds(),
+            r, (p1, p2) = func(c['mu'], [c['n']], model, init, bounds,
                                model.config.suggested_fixed(), return_fitted_pars=True)
             outs.append(dict(value=float(r), muhat=float(p2[0]), mu_fixed=float(p1[0])))
         except Exception as e:
@@ -560,7 +617,7 @@ def run(ctx):
             tie = tie or ('model evaluation failed: %s' % str(e)[-800:])
     ctx.log('%d scripts evaluated by the model' % len(scripts))
     backends = backends_for(ctx)
-    stats = dict(script_regimes={}, stats={}, warnings_compared=0, warnings_differ=0, q0_fixed_fit_calls_checked=0,
+    stats = dict(script_regimes={}, stats={}, warnings_compared=0, warnings_differ=0, q0_fixed_fit_calls_checked=0, fit_argument_sets_checked=0,
                  nopoi_cases=0, counting_regimes={}, counting_goals=0, counting_goals_rejected=0)
     sigs = set()
     evaluations = 0
@@ -600,6 +657,13 @@ def run(ctx):
                 if not okp:
                     fails.setdefault('fitted-pars:%s' % sc['stat'], []).append(
                         (sc, be, out, dict(pars=[[float(x) for x in p] for p in sp]), 'returned fitted parameters %r, the fits gave %r' % (out['pars'], [[float(x) for x in p] for p in sp])))
+                for fc in out.get('fit_calls', []):
+                    stats['fit_argument_sets_checked'] += 1
+                    for arg in fc['differs']:
+                        fails.setdefault('fit-arguments:%s:%s:%s' % (sc['stat'], fc['which'], arg), []).append(
+                            (sc, be, out, dict(received_by=fc['which'], argument=arg, expected=out['passed'].get(arg, 'the model passed')),
+                             '%s runs %s with %s = %r, the caller passed %r: the statistic is not the likelihood ratio of the two fits of the caller\'s problem'
+                             % (FUNC[sc['stat']], fc['which'], arg, fc['received'][arg], out['passed'].get(arg, 'the model'))))
                 if sc['stat'] == 'q0':
                     stats['q0_fixed_fit_calls_checked'] += 1
                 if m is not None:
@@ -645,13 +709,14 @@ def run(ctx):
 
     # ---- decide ----
     found = False
-    for sig in sorted(fails)[:8]:
+    for sig in sorted(fails, key=lambda x: (not x.startswith('fit-arguments'), x))[:10]:
         lst = fails[sig]
         sc, be, out, exp, text = min(lst, key=lambda f: (f[1] != 'numpy', len(json.dumps(f[0]))))
         found = True
         ctx.violation(sig, '%s [%s, backend %s]' % (text, 'scripted fits' if 'free_pars' in sc else 'real fits', be),
                       dict(kind='script' if 'free_pars' in sc else 'counting', case=sc, backend=be, impl=out, expected=exp, n_failing_cases=len(lst),
-                           theorem='C06_value_cases / C06_qmu_zero_above / C06_q0_zero_below / C06_q0_tests_zero / C06_tmu_no_zeroing / C06_pars_are_the_fits'
+                           theorem=('the model\'s fit e / fixed_poi_fit mu e: both fits are run on the caller\'s (data, pdf, init_pars, par_bounds, fixed_params)' if sig.startswith('fit-arguments') else
+                                    'C06_value_cases / C06_qmu_zero_above / C06_q0_zero_below / C06_q0_tests_zero / C06_tmu_no_zeroing / C06_pars_are_the_fits')
                            if 'free_pars' in sc else 'C06_q_closed_form_counting'))
     if tie and not found:
         ctx.violation('tie-broken', tie[:300], dict(kind='tie', detail=tie, theorem='props/C06.v'), nofail=True)
@@ -659,8 +724,11 @@ def run(ctx):
         evaluations=evaluations, distinct_nontrivial=len(sigs),
         rule='(i) scripted fits: {q, qtilde, q0, t, ttilde} x POI index {0, 1} x POI lower bound {0, -5} x tested mu {0, 1, 2.5} x fitted POI '
              '{above, below, at mu, at the lower bound, negative} x raw ratio {<0, =0, >0}, plus random scripts and no-POI models; the fixed-POI '
-             'fit value is affine in the mu it is called with, so the mu actually fitted is visible. (ii) real SLSQP fits on one-bin counting '
-             'models over n, (s, b), lower bound {0, -0.125}, tested mu incl. mu = muhat, 5 statistics. non-trivial = a POI is defined; '
+             'fit value is affine in the mu it is called with, so the mu actually fitted is visible; every script passes its own caller-chosen '
+             'data / init_pars / par_bounds / fixed_params and the recording replacements of both fits must have received exactly those. '
+             '(ii) real SLSQP fits on one-bin counting '
+             'models over n, (s, b), lower bound {0, -0.125}, tested mu incl. mu = muhat, 5 statistics; POI range either configured in the model or '
+             'supplied by the caller with the best fit outside the range of an unconfigured POI. non-trivial = a POI is defined; '
              'distinct by the full script / model tuple',
         backends=backends, stats=stats,
         samples=[dict(script=scripts[len(corpus_scripts)], model_value=str(models[len(corpus_scripts)].get('value')) if models else None),
@@ -678,6 +746,9 @@ def replay(body):
         sv, sp = spec_value(c) if c['poi'] is not None else (None, None)
         print('pyhf returns:', json.dumps(out))
         print('case definition:', None if sv is None else float(sv), None if sp is None else [[float(x) for x in p] for p in sp])
+        for fc in out.get('fit_calls', []):
+            print('%s received %s' % (fc['which'], 'exactly the caller\'s arguments' if not fc['differs'] else
+                                      '; '.join('%s = %r (caller passed %r)' % (a, fc['received'][a], out['passed'].get(a, 'the model')) for a in fc['differs'])))
     else:
         out = run_counting([c])[0]
         print('pyhf returns:', json.dumps(out))
